@@ -124,6 +124,11 @@ impl Indexable for ast::Include {
             return None;
         };
 
+        // a file reached again (include cycle, or included along several paths) is indexed once
+        if !ctx.indexed_files.insert(include_file_id) {
+            return None;
+        }
+
         let parse = ctx.db.parse(include_file_id);
         let source_file = ast::SourceFile::cast(parse.syntax_node())?;
 
